@@ -4,7 +4,7 @@ import treecommon
 
 
 def run(tier, seed):
-    return treecommon.run_tree_property("C04", tier, seed, "Properties/C04.v")
+    return treecommon.run_tree_property("C04", tier, seed, "Properties/C04.v", hooks_oracle=True)
 
 
 def replay(path):
